@@ -86,6 +86,119 @@ func checkC11String(s string) (bool, *Violation) {
 	})
 }
 
+// checkC11Both: the conversion function and the configuration-file path (the latter for every sampled string, and for the
+// enumerated ones that are names, numbers, or become one when their blanks are dropped).
+func checkC11Both(s string, always bool) (bool, *Violation) {
+	nt, v := checkC11String(s)
+	if v != nil {
+		return nt, v
+	}
+	_, valid, _ := refNote(s)
+	_, plain, _ := c11PlainNumber(s)
+	if always || valid || plain || c11NearName(s) {
+		classify("also through a configuration file")
+		classifyIf(c11NearName(s), "a name or number with blanks around or inside, through a configuration file")
+		return nt || c11NearName(s), checkC11Config(s)
+	}
+	return nt, nil
+}
+
+// ---- the same strings as a configuration file goes through them ----
+//
+// A key of a mapping is given a note as text: a name, or a number 0-127, optionally followed by ",<channel offset>". For a
+// string s of the property's domain the configuration `KEY_A = "s"` must be accepted with exactly the reference value when s
+// is one of the 128 names or a plain decimal number 0-127, and rejected otherwise ("extra characters" include blanks before,
+// inside and after). Not decided here (the statement does not say): numbers with a sign or with leading zeros, and texts
+// with a comma other than "<s>,<0..15>".
+var c11ConfigTemplate = func() [2]string {
+	dd := &Desc{Mode: "off", Exit: []uint16{}, Channel: 1, Velocity: 64, DefMapping: "M", Colors: colorPalette,
+		Mappings: []MappingDef{{Name: "M", KeySubs: []string{""}, Keys: []KeyDef{{Code: 30, Note: 1, RawValue: strp("@@NOTE@@")}}}}}
+	parts := strings.SplitN(RenderTOML(dd, nil), `"@@NOTE@@"`, 2)
+	return [2]string{parts[0], parts[1]}
+}()
+
+func c11PlainNumber(s string) (int, bool, bool) { // value, is a plain decimal number, is number-like but unspecified
+	if s == "" {
+		return 0, false, false
+	}
+	digits := s
+	signed := s[0] == '+' || s[0] == '-'
+	if signed {
+		digits = s[1:]
+	}
+	if digits == "" || len(digits) > 9 {
+		return 0, false, false
+	}
+	v := 0
+	for _, c := range digits {
+		if c < '0' || c > '9' {
+			return 0, false, false
+		}
+		v = v*10 + int(c-'0')
+	}
+	if signed || (len(digits) > 1 && digits[0] == '0') {
+		return v, false, true
+	}
+	return v, true, false
+}
+
+func checkC11Config(s string) *Violation {
+	text, wantOff := s, 0
+	if i := strings.IndexByte(s, ','); i >= 0 {
+		off, plain, _ := c11PlainNumber(s[i+1:])
+		if !plain || off > 15 || strings.Contains(s[:i], ",") {
+			return nil
+		}
+		text, wantOff = s[:i], off
+	}
+	want, valid, _ := refNote(text)
+	if !valid {
+		n, plain, unspecified := c11PlainNumber(text)
+		if unspecified {
+			return nil
+		}
+		if plain && n <= 127 {
+			want, valid = n, true
+		}
+	}
+	return guard("C11", "panic", func() *Violation {
+		cfg, err := config.ParseData([]byte(c11ConfigTemplate[0] + tomlString(s) + c11ConfigTemplate[1]))
+		if valid {
+			if err != nil {
+				return violation("C11", "config-round-trip", "rejected", "a key mapped to %q (note %d) in a configuration file is rejected: %v", s, want, err)
+			}
+			got, ok := cfg.KeyMappings[0].Midi[""][30]
+			if !ok || int(got.Note) != want || int(got.ChannelOffset) != wantOff {
+				return violation("C11", "config-round-trip", "value", "a key mapped to %q in a configuration file becomes note %d offset %d, want note %d offset %d", s, got.Note, got.ChannelOffset, want, wantOff)
+			}
+			return nil
+		}
+		if err == nil {
+			got := cfg.KeyMappings[0].Midi[""][30]
+			return violation("C11", "invalid-accepted", "config", "a key mapped to %q in a configuration file is accepted as note %d (offset %d); %q is neither one of the 128 note names nor a number 0-127", s, got.Note, got.ChannelOffset, s)
+		}
+		return nil
+	})
+}
+
+// c11NearName: without its blanks the string is a note name or a short number - the strings a lenient tokeniser would accept.
+func c11NearName(s string) bool {
+	t := strings.Map(func(r rune) rune {
+		if r == ' ' || r == '\t' || r == '\n' {
+			return -1
+		}
+		return r
+	}, s)
+	if t == s {
+		return false
+	}
+	if _, ok, _ := refNote(t); ok {
+		return true
+	}
+	_, plain, _ := c11PlainNumber(t)
+	return plain && len(t) <= 3
+}
+
 // c11Shape: the outer shape letter #? -? digit — the only strings that can be mis-accepted.
 func c11Shape(s string) bool {
 	i := 0
@@ -119,7 +232,7 @@ func TestC11Exhaustive(t *testing.T) {
 	var rec func(depth int) *Violation
 	rec = func(depth int) *Violation {
 		s := string(buf)
-		nt, v := checkC11String(s)
+		nt, v := checkC11Both(s, false)
 		if v != nil && !r.Known(v) {
 			r.Fail(c11Case{s}, v)
 			return v
@@ -206,7 +319,7 @@ func TestC11Numbers(t *testing.T) {
 // TestC11 samples longer strings built by mutating valid names.
 func TestC11(t *testing.T) {
 	r := NewRun(t, "C11")
-	ReplayOrRapid(t, r, func(c c11Case) (bool, *Violation) { return checkC11String(c.S) }, genC11)
+	ReplayOrRapid(t, r, func(c c11Case) (bool, *Violation) { return checkC11Both(c.S, true) }, genC11)
 }
 
 func genC11(t *rapid.T) c11Case {
@@ -219,7 +332,13 @@ func genC11(t *rapid.T) c11Case {
 	alpha := []byte(c11Alphabet + "\t\n.,_+♯b")
 	muts := rapid.IntRange(0, 3).Draw(t, "muts")
 	for i := 0; i < muts; i++ {
-		switch rapid.IntRange(0, 5).Draw(t, "kind") {
+		switch rapid.IntRange(0, 7).Draw(t, "kind") {
+		case 6: // a blank before, after or inside
+			pos := rapid.SampledFrom([]int{0, len(s), len(s), rapid.IntRange(0, len(s)).Draw(t, "blankPos")}).Draw(t, "where")
+			sym := rapid.SampledFrom([]byte{' ', ' ', '\t'}).Draw(t, "blank")
+			s = append(s[:pos], append([]byte{sym}, s[pos:]...)...)
+		case 7: // a channel offset behind it
+			s = append(s, []byte(fmt.Sprintf(",%d", rapid.IntRange(0, 17).Draw(t, "off")))...)
 		case 0: // replace a symbol
 			if len(s) > 0 {
 				s[rapid.IntRange(0, len(s)-1).Draw(t, "pos")] = alpha[rapid.IntRange(0, len(alpha)-1).Draw(t, "sym")]
